@@ -4,7 +4,7 @@
 use crate::checks::c01::Ct;
 use crate::checks::c09::line_world;
 use crate::checks::c10::CrashOracle;
-use crate::oracles::{chan_infos, CommitmentOracle, ForwardOracle, NoErrorOracle, PaymentsResolveOracle, PersistOrderOracle, RevocationOracle, SenderOracle};
+use crate::oracles::{chan_infos, CommitmentOracle, ForwardOracle, NoErrorOracle, PaymentsResolveOracle, PersistOrderOracle, RevocationOracle, SenderOracle, TxValidityOracle};
 use crate::runner::{fill_model_checking_evidence, run_scenarios, Scenario};
 use crate::sys::{Deviations, Op, WorldSys};
 use crate::world::ClaimPolicy;
@@ -61,6 +61,7 @@ pub fn build(s: &LineScn, which: &str) -> WorldSys {
 	sys.oracles.push(Box::new(po));
 	sys.oracles.push(Box::new(CommitmentOracle::new(infos)));
 	sys.oracles.push(Box::new(rev));
+	sys.oracles.push(Box::new(TxValidityOracle::new()));
 	sys.w.obs_cursor = sys.w.obs.len();
 	sys
 }
